@@ -58,9 +58,9 @@ CLAIMED.update({
  "C18": ("TLA+ reference semantics of the declaration language (DeriveDecl: Accepts, Table) model-checked by TLC (MC_Derive); translation validation of the macros: acceptance of both front-ends and probes of compiled generated code validated against it by TLC (DeriveTrace / P_C18)",
          "TLC enumerates every declaration of <= 2 variants over a small vocabulary (MC_Derive: 5.4 M declarations) and checks that what Accepts admits denotes a well-formed schema (bad-specification panics unreachable) and that each listed kind of broken declaration is rejected. The macro sources of the working tree are called as a library on token streams for random well-formed declarations and declarations broken by one of 13 rules (both front-ends; acceptance and token equality recorded); accepted declarations are compiled with the real macros against /repo and every declared id plus undeclared probe ids are queried through the generated trait functions (type, path, constructors, accessors, id/value returned, raw tag) and exercised with the iterator and writer under catch_unwind. P_C18: res = Accepts(D), table = Table(D), no panic.",
          "Trusted: TLC, Json module, rustc. Compile errors are observed as rejections of the macro implementation called as a library; diagnostic texts are not checked. Declarations are sampled beyond the bounded model.", "6 C18"),
- "C20": ("TLA+ refinement of the async wrapper to the blocking reader checked by TLC (MC_Async, intended wrapper; the current one-read-per-call wrapper is the named deviation DEV_ASYNC_STRADDLE); recorded runs of TagIteratorAsync / into_stream validated against the blocking run by TLC (ReaderTrace mode C20, relation P_C04)",
-         "MC_Async explores every input <= 4/5 bytes and every split of it into async read results and checks that the intended wrapper yields exactly the blocking iterator's results, ending once. The driver async runs the real TagIteratorAsync::next() loop and the stream adapter on a single-threaded executor over a scripted AsyncRead (whole input at once, every partition of inputs <= 10 bytes, random partitions, inputs above the 64 KiB transfer buffer, buffered-tag sets) next to the blocking iterator; TLC evaluates the equality relation per case. Runs in which the source needed more than one read and that differ are explained only through the listed known finding DEV_ASYNC_STRADDLE and reported as KNOWN-FINDING.",
-         "Trusted: TLC, Json module, futures executor. Because of the known finding, regressions confined to multi-read schedules are not detected by this check; single-read schedules (and the stream adapter on them) are.", "6 C20"),
+ "C20": ("TLA+ model of the async wrapper (MC_Async: header-aware reading loop around the blocking reader of ReaderCore) checked by TLC to refine the blocking reader for every split of the input into reads; recorded runs of TagIteratorAsync / into_stream validated against the blocking run by TLC (ReaderTrace mode C20, relation P_C04)",
+         "MC_Async explores every input <= 4/5 bytes over 12 byte values, the buffered sets {}, {A}, {B}, {A,B} and every split of the input into async read results, and checks that the wrapper as implemented (reads until an item is queued, the next item has been received - header, payload, a buffered master's extent plus the item after it - or the source is exhausted) yields exactly the blocking iterator's results step by step, ending once; the pre-repair wrapper (one read per call) and a wrapper without the 'item after a buffered master' clause are refuted by TLC. The driver async runs the real TagIteratorAsync::next() loop and the stream adapter on a single-threaded executor over a scripted AsyncRead (whole input at once, every partition of inputs <= 10 bytes, every first-read length and byte-wise delivery for inputs <= 160 bytes, random partitions, inputs above the 64 KiB transfer buffer, buffered-tag sets) next to the blocking iterator; TLC evaluates the equality relation per case.",
+         "Trusted: TLC, Json module, futures executor. The scripted source is always Ready (Pending belongs to the executor). The defect this check found (one read per call) was repaired in /repo (fix commit, see known_findings.txt); no known finding remains for C20.", "6 C20"),
 })
 
 NA_REASON = "check not built yet (work in progress in this round)"
